@@ -22,3 +22,7 @@ CHECKS["C44"] = dict(
                  "operations issued only by miners never run concurrently with operations issued only by sharders on one object",
                  "interleavings are sampled by the Go scheduler; the detector needs both accesses of a pair to execute, not a particular timing"],
 )
+
+# the duplicate-built-in bookkeeping of ValidateTransactions is shared by the batch goroutines: the C22 block generator
+# (built-in calls at drawn positions across batches) is run once more under the race detector for C44
+CHECKS["C44"]["parts"].append(dict(pkg="0chain.net/miner", run="^TestC22_OneBuiltinPerBlock$", race=True, quick=300, thorough=20000))
